@@ -99,6 +99,16 @@ def check_tok(case, rec):
         raise Violation(
             f"reused tokenizer (first use: {first} on {case['pat1']!r}) gives {[x[0] for x in a]} on {case['pat2']!r}, "
             f"a fresh one {[x[0] for x in b]}", case)
+    if first == "gen_unstarted":
+        # the generator requested first is only consumed now, i.e. its run starts after a complete
+        # run on another stream: it too must deliver what a fresh tokenizer delivers for stream 1
+        late = list(keep)
+        f4, v4, s4 = tok.make_stream(case["pat1"], kind)
+        fresh1 = tok.deliver(tok.make_tokenizer(v4, p), s4, "list")
+        if norm(late, f1) != norm(fresh1, f4):
+            raise Violation(
+                f"generator requested before, consumed after, a run on {case['pat2']!r}: gives "
+                f"{tok.spans(late)} on {case['pat1']!r}, a fresh tokenizer {tok.spans(fresh1)}", case)
     del keep
 
 
